@@ -7,6 +7,8 @@ import (
 	"cosmossdk.io/collections"
 	sdk "github.com/cosmos/cosmos-sdk/types"
 	v1 "github.com/cosmos/cosmos-sdk/x/gov/types/v1"
+
+	"github.com/functionx/fx-core/v8/x/gov/types"
 )
 
 func (keeper Keeper) IteratorInactiveProposal(ctx sdk.Context, t time.Time, fn func(proposal v1.Proposal) (bool, error)) error {
@@ -93,9 +95,6 @@ func (keeper Keeper) GetCustomMsgQuorum(ctx context.Context, defaultQuorum strin
 }
 
 func getProposalMsgType(proposal v1.Proposal) string {
-	message := proposal.GetMessages()
-	for _, msg := range message {
-		return sdk.MsgTypeURL(msg)
-	}
-	return ""
+	// the messages are stored packed: their type is the url of the packed message
+	return types.ExtractMsgTypeURL(proposal.GetMessages())
 }
